@@ -15,6 +15,8 @@ import (
 	"time"
 
 	"github.com/google/martian/v3"
+	"github.com/google/martian/v3/fifo"
+	"github.com/google/martian/v3/har"
 	"pgregory.net/rapid"
 
 	"verifharness/internal/kit"
@@ -41,6 +43,12 @@ type Case struct {
 	Seed    uint64 `json:"seed,omitempty"`
 
 	Post bool `json:"post,omitempty"` // first request is a POST with a small body
+	// Logger: a body-capturing HAR logger runs as response modifier (before the
+	// stamp): a logger must not turn a truncated response into a complete one.
+	Logger bool `json:"logger,omitempty"`
+	// ConnectFirst (kind dial, proxy without MITM): request 1 is a CONNECT to
+	// the unreachable target instead of a plain request.
+	ConnectFirst bool `json:"connect_first,omitempty"`
 }
 
 const marker2 = "MARKER-TWO-7f3a91c2"
@@ -169,6 +177,9 @@ func (r *recConn) bytes() []byte {
 func shape(c Case, headLen, total int) string {
 	switch c.Kind {
 	case "dial":
+		if c.ConnectFirst {
+			return "connect-dial-" + c.Dial
+		}
 		return "dial-" + c.Dial
 	case "nonhttp":
 		return "nonhttp-" + c.Payload
@@ -210,6 +221,9 @@ func runOnce(c Case, T time.Duration) (v kit.Verdict) {
 		headLen = 1 << 30
 	}
 	sh := shape(c, headLen, len(raw))
+	if c.Logger {
+		sh += "-with-har-logger"
+	}
 	sig := func(class string) string { return "C03/" + sh + "/" + class }
 
 	healthy := netkit.NewOrigin(func(r *netkit.ReqLog) netkit.Script {
@@ -255,10 +269,22 @@ func runOnce(c Case, T time.Duration) (v kit.Verdict) {
 	p := martian.NewProxy()
 	p.SetTimeout(60 * time.Second)
 	p.SetDial(dialer.Dial)
-	p.SetResponseModifier(martian.ResponseModifierFunc(func(res *http.Response) error {
+	stamp := martian.ResponseModifierFunc(func(res *http.Response) error {
 		res.Header.Set("X-Verif-Resmod", "1")
 		return nil
-	}))
+	})
+	if c.Logger {
+		hl := har.NewLogger()
+		grp := fifo.NewGroup()
+		grp.SetAggregateErrors(true)
+		grp.AddRequestModifier(hl)
+		grp.AddResponseModifier(hl)
+		grp.AddResponseModifier(stamp)
+		p.SetRequestModifier(grp)
+		p.SetResponseModifier(grp)
+	} else {
+		p.SetResponseModifier(stamp)
+	}
 	pr := netkit.Start(p, nil)
 	defer pr.Stop(10 * time.Second)
 
@@ -275,6 +301,10 @@ func runOnce(c Case, T time.Duration) (v kit.Verdict) {
 	if c.Post {
 		req1 = "POST http://faulty.test/first HTTP/1.1\r\nHost: faulty.test\r\nContent-Length: 5\r\n\r\nhello"
 		method1 = "POST"
+	}
+	if c.ConnectFirst {
+		req1 = "CONNECT faulty.test:443 HTTP/1.1\r\nHost: faulty.test:443\r\n\r\n"
+		method1 = "CONNECT"
 	}
 	req2 := "GET http://healthy.test/second HTTP/1.1\r\nHost: healthy.test\r\n\r\n"
 	rc.SetWriteDeadline(time.Now().Add(10 * time.Second))
@@ -445,7 +475,11 @@ func nontrivial(c Case) bool {
 
 func classes(c Case) []string {
 	raw, headLen := c.template()
-	return []string{shape(c, headLen, len(raw)), "end-" + c.End}
+	out := []string{shape(c, headLen, len(raw)), "end-" + c.End}
+	if c.Logger {
+		out = append(out, "har-logger-in-response-path")
+	}
+	return out
 }
 
 const rule = "an upstream fault on request 1 (response cut at offset k then FIN/RST; dial refused / accepted-then-closed / accepted-then-reset; non-HTTP bytes) followed by a well-formed request 2 on the same client connection and a request 3 on a fresh one; non-trivial = 0<k<len, a dial fault or a non-HTTP payload"
@@ -460,10 +494,13 @@ var propFaults = &kit.Prop[Case]{ID: "C03", Name: "faults", Rule: "rapid-drawn: 
 	Run: run, NonTrivial: nontrivial, Classes: classes, Journal: true,
 	Gen: func(t *rapid.T) Case {
 		kind := rapid.SampledFrom([]string{"truncate", "truncate", "truncate", "truncate", "dial", "nonhttp"}).Draw(t, "kind")
-		c := Case{Kind: kind, Post: rapid.Bool().Draw(t, "post"), Seed: rapid.Uint64Range(1, 1<<16).Draw(t, "seed")}
+		c := Case{Kind: kind, Post: rapid.Bool().Draw(t, "post"), Seed: rapid.Uint64Range(1, 1<<16).Draw(t, "seed"), Logger: rapid.IntRange(0, 2).Draw(t, "logger") == 0}
 		switch kind {
 		case "dial":
 			c.Dial = rapid.SampledFrom([]string{"refused", "accept-close", "accept-rst"}).Draw(t, "dial")
+			if c.Dial == "refused" && rapid.Bool().Draw(t, "connect_first") {
+				c.ConnectFirst, c.Post = true, false
+			}
 		case "nonhttp":
 			c.Payload = rapid.SampledFrom(payloads).Draw(t, "payload")
 		default:
@@ -520,6 +557,7 @@ func TestTruncationExhaustive(t *testing.T) {
 				for k := 0; k <= len(raw); k++ {
 					c := base
 					c.Cut, c.End = k, end
+					c.Logger = end == "rst" // every offset is cut once without and once with a body-capturing logger
 					if !yield(c) {
 						return
 					}
@@ -538,10 +576,13 @@ func TestDialAndNonHTTPMatrix(t *testing.T) {
 				}
 			}
 			for _, pl := range payloads {
-				if !yield(Case{Kind: "nonhttp", Payload: pl, Seed: 5, Post: post}) {
+				if !yield(Case{Kind: "nonhttp", Payload: pl, Seed: 5, Post: post, Logger: post}) {
 					return
 				}
 			}
+		}
+		if !yield(Case{Kind: "dial", Dial: "refused", ConnectFirst: true}) {
+			return
 		}
 	})
 }
